@@ -5,7 +5,7 @@ CFG = dict(
     level_text="Lean 4 theorems over ALL blocks, ALL start states between blocks and ALL write indices k: a crash or failing write in front of the k-th database write of a block "
                "(transactional write, key-manager write, decided-history cleanup, marker write, commit), restart on the surviving database and resumption from marker+1 ends exactly like "
                "the uninterrupted run - same completion, registry (shares, operators, recipients+nonces, marker, own operator id), decided history, and set of stored key shares (none twice) - "
-               "for every position except the one between the account record and the wallet index of AddShare, for which the full statement is REFUTED (duplicate account record); "
+               "for every position except the one between the account record and the wallet index of AddShare, for which the full statement is REFUTED (duplicate account record); the same for ANY SEQUENCE of such faults (C12_fault_sequence_partial); "
                "the registry part is atomic at every position (marker written through the block transaction); an inferior block is refused. The micro-step model is tied to the code on every "
                "run by regenerated call orders and by running the real EventHandler + ekm key manager + ibft store on Badger with a fault-injecting database/transaction/key-manager wrapper: "
                "the real write trace of every block equals the model's step list, and every write / key-manager call of generated blocks is used once as a crash and once as an error point.",
@@ -17,7 +17,7 @@ CFG = dict(
               "call-site facts + differential run with fault injection against the Lean micro-step model + implementation-side oracle (final state after restart-and-resume = uninterrupted real run)",
     lean=["Ssv.Props.C12"],
     engines=[dict(harness="registry", driver="m_registry", args=["-mode", "c12"], case_delim="reset",
-                  n_quick=2, n_thorough=60, thorough_seeds=3, n_search=6, search_seeds=2)],
+                  n_quick=2, n_thorough=25, thorough_seeds=3, n_search=6, search_seeds=2)],
     rule="seeded generator of validator life cycles (operators incl. the own key, add own / foreign validators, decided history, metadata, liquidate, reactivate, exit, remove, re-add, "
          "fee recipients, malformed adds) cut into blocks; for every block every real database write (incl. the slashing-protection writes inside key-manager calls) is used once as a crash "
          "point and once as an error point, every key-manager call once as an error point; each fault run: blocks before, faulted block, new process on the surviving database, resume from "
@@ -26,6 +26,6 @@ CFG = dict(
     trusted_base=["fault-injecting basedb.Database / Txn / KeyManager wrappers and the mapping of raw database keys to the model's write kinds",
                   "Badger: a transaction is atomic and durable at Commit; uncommitted transaction writes vanish with the process",
                   "eth2-key-manager wallet code is modelled at the granularity of its two storage writes (account record, wallet index)"],
-    assumptions=["reads do not fail (a failing OperatorsExist read would be swallowed as a malformed event)", "one fault per run of the stream (fault sequences follow by applying the theorem at each restart; not stated as a single theorem)"],
+    assumptions=["reads do not fail (a failing OperatorsExist read would be swallowed as a malformed event)", "the fault-free run of the stream completes (no refused block, no log without topics); OperatorAdded ids are fresh and non-zero (needed for the restart to find the own operator id, see C11)"],
     explanation="KNOWN-FINDING: the fault position between account record and wallet index leaves a duplicate account record after resume (see known_findings/C12.json).",
 )
